@@ -143,7 +143,10 @@ fn check_cfg(ctx: &Ctx, cfg: &Cfg, dp: usize, stretch_len: usize) -> JobOut {
     });
     for (st, w) in plan(cfg) {
         for pre in &prefixes {
-            for &level in &levels {
+            // flat from the very first input at extreme magnitudes (with an active prefix of ordinary size the
+            // squares of the jump overflow f64, which is not a flat-window matter)
+            let extreme: Vec<f64> = if pre.is_empty() { vec![1e200, 1e-200, 1e300] } else { vec![] };
+            for &level in levels.iter().chain(extreme.iter()) {
                 // PPO divides by its slow average: a stream that changes sign drives that average through 0,
                 // which is a singularity of the formula, not a flat-window matter (C03 restricts PPO to positive prices)
                 if level < 0.0 && cfg.kind == Kind::Ppo {
@@ -317,7 +320,7 @@ pub fn run(ctx: &Ctx) -> CheckResult {
     res.extra.insert("configurations".into(), json!(jobs.len()));
     res.rule = "case = (configuration, active prefix, stretch kind, flat level, step of the stretch); the real output at every step whose reference window is degenerate (min(t,w) trailing inputs flat / zero-flow) must be finite, inside the documented range, and equal the documented neutral value where one is defined; non-trivial = non-empty active prefix".into();
     res.bounds = format!(
-        "all 22 indicators, periods 1..8; every active prefix over {{2, 0.3, 1e6, 7.7, 1e9}} up to depth {} (exponential-memory kinds at periods 1..3: {}), levels {{1, 0.1, 0.7, 3.3, 1e6, -1, -3.3}}, stretch kinds scalar / one-price bar / same bar (CCI, MFI) / zero volume (MFI, OBV), every stretch length 1..{} ({} for exponential-memory kinds{}); level sweep for periods 1..3: all two-decimal prices 0.01..20.00 and 2000 log-uniform levels in [1e-3, 1e6]",
+        "all 22 indicators, periods 1..8; every active prefix over {{2, 0.3, 1e6, 7.7, 1e9}} up to depth {} (exponential-memory kinds at periods 1..3: {}), levels {{1, 0.1, 0.7, 3.3, 1e6, -1, -3.3}} (and 1e200, 1e-200, 1e300 for streams flat from the start), stretch kinds scalar / one-price bar / same bar (CCI, MFI) / zero volume (MFI, OBV), every stretch length 1..{} ({} for exponential-memory kinds{}); level sweep for periods 1..3: all two-decimal prices 0.01..20.00 and 2000 log-uniform levels in [1e-3, 1e6]",
         4,
         3,
         if th { 600 } else { 64 },
